@@ -233,11 +233,17 @@ class SymCtx:
                     raise Discard()
                 return
             self.space.add(var)
+            self.space.solver.set("timeout", FIRST_TIMEOUT_MS)
             r = self.space.solver.check()
+            if r == z3.unknown:
+                s = z3.Solver()
+                s.set("timeout", FALLBACK_TIMEOUT_MS)
+                s.add(*self.space.solver.assertions())
+                r = s.check()
             if r == z3.unsat:
                 raise Discard()
-            if r == z3.unknown:
-                raise UnexploredPath("assumption feasibility unknown")
+            # unknown: continue; if the path is in fact infeasible its VCs hold vacuously, which is
+            # sound (no input follows it); the reachability twin guards against an all-vacuous harness.
 
     # ---- verification conditions
     def check(self, label: str, goal, robust=None, **info) -> bool:
